@@ -65,7 +65,7 @@ fn run_c14_tree<Tr: TreeApi>(rep: &mut Rep, spec: &SeqSpec) {
     drop(raw);
     let bl = bitlen(max) as f64;
     let kind = Tr::KIND;
-    for path in 0..3u8 {
+    for path in 0..4u8 {
         // the input is created before the window and consumed / dropped inside it
         let input = data.clone();
         let (t, retained) = measure_freed(false, n * std::mem::size_of::<Tr::Item>(), move || match path {
@@ -76,7 +76,14 @@ fn run_c14_tree<Tr: TreeApi>(rep: &mut Rep, spec: &SeqSpec) {
                 t
             }
             1 => Tr::b_from(input),
-            _ => Tr::b_collect(input),
+            2 => Tr::b_collect(input),
+            _ => {
+                // a value read back from its serialized form (how an index built once is used later)
+                let t = Tr::b_from(input);
+                let bytes = t.ser().expect("serialize");
+                drop(t);
+                Tr::de_reader(&mut &bytes[..]).expect("deserialize")
+            }
         });
         let (bound, detail) = if kind == TreeKind::PlainQuad {
             let levels = (bl / 2.0).ceil();
@@ -90,7 +97,7 @@ fn run_c14_tree<Tr: TreeApi>(rep: &mut Rep, spec: &SeqSpec) {
         bound_viol(
             rep,
             "retained_bits",
-            format!("{} path={} n={} max={}", Tr::name(), crate::props::trees::path_name(path), n, max),
+            format!("{} path={} n={} max={}", Tr::name(), if path == 3 { "deserialized" } else { crate::props::trees::path_name(path) }, n, max),
             bound,
             got,
             detail,
@@ -168,8 +175,8 @@ fn space_lens(cfg: &Cfg) -> Vec<usize> {
         (Scale::Tiny, _) => vec![300],
         (Scale::Mid, Tier::Quick) => vec![3001, 100_003],
         (Scale::Mid, Tier::Thorough) => vec![0, 1, 3001, 100_003, 600_011],
-        (Scale::Full, Tier::Quick) => vec![0, 1, 3001, 100_003, 1_000_003],
-        (Scale::Full, Tier::Thorough) => vec![0, 1, 257, 3001, 100_003, 1_000_003, 4_000_037],
+        (Scale::Full, Tier::Quick) => vec![0, 1, 3001, 100_003, 1_000_003, 5_300_003],
+        (Scale::Full, Tier::Thorough) => vec![0, 1, 257, 3001, 100_003, 1_000_003, 4_000_037, 9_000_011],
     }
 }
 
@@ -332,8 +339,8 @@ pub fn cases_c15(cfg: &Cfg) -> Vec<Case> {
         (Scale::Tiny, _) => vec![400],
         (Scale::Mid, Tier::Quick) => vec![5000, 100_003],
         (Scale::Mid, Tier::Thorough) => vec![5000, 100_003, 400_009],
-        (Scale::Full, Tier::Quick) => vec![1, 2, 5000, 100_003, 1_000_003],
-        (Scale::Full, Tier::Thorough) => vec![1, 2, 3, 257, 5000, 100_003, 1_000_003, 3_000_017],
+        (Scale::Full, Tier::Quick) => vec![1, 2, 5000, 100_003, 1_000_003, 2_400_011],
+        (Scale::Full, Tier::Thorough) => vec![1, 2, 3, 257, 5000, 100_003, 1_000_003, 3_000_017, 5_300_003],
     };
     let aliases = ["HQWT256", "HQWT512", "HQWT256Pfs", "HQWT512Pfs", "HWT"];
     let profiles: Vec<(Alpha, Dist, &'static str)> = vec![
@@ -477,7 +484,7 @@ fn run_c16_tree<Tr: TreeApi>(rep: &mut Rep, spec: &SeqSpec) {
     let n = data.len();
     let max = raw.iter().copied().max().unwrap_or(0);
     drop(raw);
-    for path in 0..3u8 {
+    for path in 0..4u8 {
         let input = data.clone();
         let (t, retained) = measure_freed(Tr::KIND.is_huff(), n * std::mem::size_of::<Tr::Item>(), move || match path {
             0 => {
@@ -487,13 +494,20 @@ fn run_c16_tree<Tr: TreeApi>(rep: &mut Rep, spec: &SeqSpec) {
                 t
             }
             1 => Tr::b_from(input),
-            _ => Tr::b_collect(input),
+            2 => Tr::b_collect(input),
+            _ => {
+                // a value read back from its serialized form
+                let t = Tr::b_from(input);
+                let bytes = t.ser().expect("serialize");
+                drop(t);
+                Tr::de_reader(&mut &bytes[..]).expect("deserialize")
+            }
         });
         let levels = t.n_levels_().max(1);
         let table = if Tr::KIND.is_huff() { 16 * (max as usize + 1) + 4096 } else { 0 };
         report_vs_retained(
             rep,
-            format!("{} path={} n={} max={}", Tr::name(), crate::props::trees::path_name(path), n, max),
+            format!("{} path={} n={} max={}", Tr::name(), if path == 3 { "deserialized" } else { crate::props::trees::path_name(path) }, n, max),
             t.space(),
             retained,
             levels * 8,
